@@ -256,7 +256,7 @@ def generate(unit_dir, mustfail=False, mutate=None, variant=None, template='unit
                     cur = ls.split()[1:]
                     buf = []
                 else:
-                    if cur is None and ls:
+                    if cur is None and ls and not ls.startswith('// ---- '):      # (markers of an expanded include are not text)
                         raise ExtractError('%s: text before first section in fn %s' % (tpath, qual))
                     buf.append(lines[i])
                 i += 1
@@ -526,8 +526,40 @@ def apply_renames(spec, m):
         spec['rewrites'] = [(f(a), f(b)) for a, b in spec['rewrites']]
 
 
-FORBIDDEN_HIT = []  # quals of auto-stubbed callees that got `requires false` in this generation
-FORBID = [None]      # regex set from the unit header (`forbid=<regex>`): callees a unit's functions must never reach
+import threading
+
+
+class _PerThread(threading.local):
+    """Units are generated in parallel threads: what one generation sets must not be seen by another."""
+    def __init__(self):
+        self.forbid = None
+        self.hit = []
+
+
+_T = _PerThread()
+
+
+class _ForbidCell:
+    def __getitem__(self, i):
+        return _T.forbid
+
+    def __setitem__(self, i, v):
+        _T.forbid = v
+
+
+class _HitList:
+    def append(self, x):
+        _T.hit.append(x)
+
+    def __delitem__(self, sl):
+        _T.hit = []
+
+    def __iter__(self):
+        return iter(_T.hit)
+
+
+FORBIDDEN_HIT = _HitList()  # quals of auto-stubbed callees that got `requires false` in this generation (per thread)
+FORBID = _ForbidCell()      # regex set from the unit header (`forbid=<regex>`): callees a unit's functions must never reach (per thread)
 
 
 def stub_text(st, plain):
